@@ -1,4 +1,5 @@
 import os
+import collections
 import warnings
 import datetime
 
@@ -150,8 +151,16 @@ class load(DataStreamProcessor):
             for resource_descriptor in datapackage_descriptor['resources']:
                 if resource_matcher.match(resource_descriptor['name']):
                     self.resource_descriptors.append(resource_descriptor)
-            self.iterators = (resource for resource, descriptor in zip(resource_iterator, resources)
-                              if resource_matcher.match(descriptor['name']))
+            def selected_resources():
+                for resource, descriptor in zip(resource_iterator, resources):
+                    if resource_matcher.match(descriptor['name']):
+                        yield resource
+                    else:
+                        # the pair may be the live stream of another flow: its steps (duplicate, join,
+                        # concatenate...) count on each resource being read before the next one is taken
+                        collections.deque(resource, maxlen=0)
+
+            self.iterators = selected_resources()
 
         # If load_source is string:
         else:
